@@ -93,7 +93,13 @@ def _duc(keyf):
         prev = None
         for i, v in enumerate(xs):
             k = keyf(v) if keyf else v
-            if i == 0 or k != prev:
+            try:
+                changed = bool(i == 0 or k != prev)
+            except ValueError:
+                # numpy arrays of more than one element have no truth value: comparing them with != is the
+                # user's type error, not a behaviour of distinct_until_changed
+                raise Discard('distinct_until_changed on values whose != has no truth value (numpy arrays)')
+            if changed:
                 out.append((i, v))
             prev = k
         return out
